@@ -27,6 +27,11 @@ func linearSum(t *Term) (int64, []string, bool) {
 
 func checkC14(ctx *Ctx) *Result {
 	r := newResult("C14")
+	// "approved if …": nothing but the documented reasons refuses a preflight
+	// whose header list passes (shared with C01's converse rule)
+	defer func() {
+		r.share(checkC01(ctx), map[string]string{"R1.13": "no undocumented refusal: a debug-off preflight that passed the origin step fails only where the private-network, method or header step fails for its documented reason (for the header step: no names allowed, or headers.Check refuses the list)"}, nil)
+	}()
 	r.Explanation = "Necessary conditions of `approved ⇔ well-formed sorted list of allowed names`, decided structurally (the equivalence over all byte strings — window and boundary arithmetic — is NOT decided): (R14.1) gating on the request path: with debug off and a discrete set, the request's ACRH lines are reflected only on paths carrying Check(allowed set of the snapshot, these very lines) = true, and Check = false or an empty set leads to the failing answer; (R14.2) per-element table of headers.Check (both loops cut at their headers): an element is obtained by cutting at the first comma within the window and trimming at most MaxOWSBytes of OWS per side; a failed trim rejects; an empty element increments the counter, which is compared with MaxEmptyElements before going on; a non-empty element is looked up with IndexAfter(set, position of the last name, element), a negative result rejects, otherwise the result becomes the new position — no path goes on past a non-empty element without that lookup; `true` is returned only after the last line; after a comma the scan resumes right behind it; (R14.3) the window is 1·MaxLen(set) + c with c ≥ 2·MaxOWSBytes + 1, MaxOWSBytes = 1, MaxEmptyElements = 16; (R14.4) IndexAfter searches elems[n+1:] and returns n+1+index, or -1 when absent or longer than the longest name."
 	r.NotDecided = "that the windowed scanner accepts exactly the documented language for every byte string (comma exactly at the window edge, 16 vs 17 empties across lines, whitespace-only elements): arithmetic over runtime values"
 	r.Trusted = append([]string{"strings.IndexByte, slices.BinarySearch behave as documented; headers.TrimOWS trims at most n OWS bytes per side (its loops are bounded by n; not re-derived)"}, trustedRequestPath...)
@@ -485,6 +490,10 @@ func checkC14(ctx *Ctx) *Result {
 			if v := pa.Next[emptyPhi]; v != nil && v.Key() != "loopphi:"+emptyPhi+"@"+outer {
 				badOuter = "the empty-element counter is reset between field lines: " + v.Key()
 			}
+		} else {
+			// from the line loop's head one either returns at exhaustion or
+			// starts scanning the current line
+			badOuter = "a field line can be passed over without being scanned: the line loop reaches " + pa.End + " on {" + pa.AtomString() + "}"
 		}
 	}
 	for _, pa := range paths {
